@@ -26,7 +26,7 @@ func c20(c *Ctx) {
 	r.Explain = "OWN O4 (deep copy): flow-sensitive origin analysis of Packet.Clone and Header.Clone; every reference " +
 		"reachable from the returned value must be memory allocated inside Clone or nil. Decides independence through its " +
 		"cause (no shared reference), for all packets; value equality of the copied bytes is not decided here. STRUCT.clone: every field of the result is written on every " +
-		"path (or the original's is nil), from the same field of the original, and every fresh slice is filled from the slice whose length it takes."
+		"path (or the original's is nil), from the same field of the original, and every fresh slice is filled from the slice whose length it takes. Every copy() made by Clone has a destination exactly as long as its source."
 	n, nk := 0, 0
 	for _, name := range []string{"rtp.(Packet).Clone", "rtp.(Header).Clone"} {
 		fn := p.Func(name)
